@@ -244,12 +244,12 @@ impl World {
         if after[3].0 - before[3].0 < 1 {
             return Err(self.viol("drop.not-run", format!("{}: dropping the SharedSecret wipes it", what), "no drop recorded".into()));
         }
-        if !scan.present_before[0] {
+        if !scan.observed(0) {
             cov.hit("teardown.unobservable.shared_secret");
             return Ok(());
         }
         cov.hit("teardown.observed.shared_secret");
-        if scan.present_after[0] {
+        if scan.survived(0) {
             return Err(self.viol("drop.shared_secret-still-in-memory", format!("{}: shared secret gone from its {}-byte slot after drop", what, scan.size), "still present".into()));
         }
         Ok(())
